@@ -3,7 +3,7 @@
 # Applies one mutation in the scratch sandbox /tmp/sb (never in /repo), runs the listed checks
 # there, and reverts. Also: tools/mutant.sh --patch <file.diff> C01 ...
 set -u
-SB=/tmp/sb
+SB=${SB_DIR:-/tmp/sb}
 /verif/tools/sandbox.sh >/dev/null || exit 2
 trap 'git -C $SB/repo checkout -- . ' EXIT
 cd $SB/repo || exit 2
